@@ -54,7 +54,7 @@ def main():
         "engines": [
             {"name": "lean4-proof+correspondence", "path": "lean/ (lake project PV, Mathlib-free driver pvdriver) + harness/",
              "serves_properties": [c["property_id"] for c in checks],
-             "kind_free_text": "Lean 4 theorems about executable models; models tied to /repo on every run by (T-B) regenerating constants/tables from the source AST, (T-C) regenerating the numeric kernels by symbolic tracing of the real numpy code (harness/symtrace*.py -> PV/Generated/Kernels*.lean) with Lean proofs that each traced kernel equals the model's function for all real inputs (PV/Equiv), and (T-A) a differential correspondence check of the Mathlib-free model driver against pyorbital in-process; a property oracle on the implementation supplies failing inputs and replays"}
+             "kind_free_text": "Lean 4 theorems about executable models; models tied to /repo on every run by (T-B) regenerating constants/tables from the source AST, (T-C) regenerating the numeric kernels by symbolic tracing of the real numpy code (harness/symtrace*.py -> PV/Generated/Kernels*.lean) with Lean proofs that each traced kernel equals the model's function for all real inputs (PV/Equiv), (T-D) translating the discrete tlefile functions statement by statement from the source AST into Lean do-blocks (harness/pytrans.py -> PV/Generated/Translated.lean) with Lean proofs that each translated function equals the model (PV/Equiv/Translated*), and (T-A) a differential correspondence check of the Mathlib-free model driver against pyorbital in-process; a property oracle on the implementation supplies failing inputs and replays"}
         ],
         "checks": checks,
         "not_applicable": na,
